@@ -164,6 +164,7 @@ func (b *binding) emitGetP() {
 func (b *binding) emitSet() {
 	if b.isConst {
 		if b.isStrict || b.scope.c.scope.strict {
+			b.emitGetP() // an uninitialised binding (TDZ) is a ReferenceError, which comes first
 			b.scope.c.emit(throwAssignToConst)
 		}
 		return
@@ -179,6 +180,7 @@ func (b *binding) emitSet() {
 func (b *binding) emitSetP() {
 	if b.isConst {
 		if b.isStrict || b.scope.c.scope.strict {
+			b.emitGetP() // an uninitialised binding (TDZ) is a ReferenceError, which comes first
 			b.scope.c.emit(throwAssignToConst)
 		}
 		return
